@@ -113,12 +113,17 @@ def case_id(line):
 # result lines
 # ----------------------------------------------------------------------------------------------
 class Res:
-    __slots__ = ("kind", "val", "errs", "raw", "pulled")
+    __slots__ = ("kind", "val", "errs", "raw", "pulled", "drops")
     def __init__(self, raw):
         self.raw = raw
         self.val = None
         self.errs = []
         self.pulled = None
+        self.drops = None
+        m = re.search(r" L(\d+) D([01]) O(\d+)$", raw)
+        if m:                       # drop accounting (FORMAT v3): live after the case, double-drop flag, tracked values in the output
+            self.drops = (int(m.group(1)), int(m.group(2)), int(m.group(3)))
+            raw = raw[:m.start()]
         m = re.search(r" P(\d+|!)$", raw)
         if m:                       # stream kinds: items pulled from the underlying iterator
             self.pulled = m.group(1)
